@@ -182,6 +182,9 @@ Definition unit_of_token (t : token_type) : option unit_mode :=
   else if token_type_eqb t TT_LOGICAL then Some UM_LOGICAL else None.
 
 Definition is_executable (t : token_type) : bool := existsb (token_type_eqb t) tt_is_executable_list.
+(* Parser._detect_routine_start: what follows `define NAME` begins a routine body *)
+Definition routine_start (s : pst) : bool :=
+  (is_type s TT_NAME && has_routine s (ctext s)) || is_executable (ctype s) || is_mark s "[" || is_type s TT_BEGIN || is_type s TT_WITH.
 
 Fixpoint p_rvalue (fuel : nat) (s : pst) {struct fuel} : pres rval :=
   match fuel with
@@ -238,7 +241,8 @@ with p_atom (fuel : nat) (s : pst) {struct fuel} : pres expr :=
       | RVar x => POk (EVar x) s1
       | RReg r => POk (EReg r) s1
       | RCall g args => POk (ECall g args) s1
-      | _ => PUnm "nested braces inside an expression"
+      | RExpr e => POk (EParen e) s1      (* braces inside an expression: the value stays on the stack, like parentheses *)
+      | _ => PUnm "folded minus inside an expression"
       end
   end
 with p_expression (fuel : nat) (s : pst) {struct fuel} : pres expr :=
@@ -427,7 +431,7 @@ Fixpoint p_command (fuel : nat) (s : pst) {struct fuel} : pres stmt :=
       if is_type s1 TT_NAME then
         let name := ctext s1 in
         let s2 := next s1 in
-        if has_routine s2 (ctext s2) || is_executable (ctype s2) || is_type s2 TT_BEGIN || is_type s2 TT_WITH then
+        if routine_start s2 then
           (* a routine *)
           if has_routine s2 name || (match get_macro s2 name with Some _ => true | None => false end) then perr s2
           else if p_in_routine s2 then perr s2
